@@ -247,6 +247,8 @@ func buildResponse(c C14Case, variant int) *scriptHTTP {
 		s.body = []byte(valid[:cut])
 	case "stalled":
 		s.stall = true
+	case "emptyms":
+		s.body = []byte(`<?xml version="1.0" encoding="utf-8"?><D:multistatus xmlns:D="DAV:"></D:multistatus>`)
 	case "garbage":
 		s.body = []byte("\x00\xff\xfe<<<>>>&&& not xml at all \x1b[0m")
 	case "html":
